@@ -167,6 +167,13 @@ def _formulas_for_frame(spec, seed, frame_index, count):
     if cats and nums:
         fixed.append(f"{cats[0]}:{nums[0]} + 2.5:{nums[0]}")
         fixed.append(f"0 + {nums[0]}:{cats[0]}")
+    plain_nums = [c["name"] for c in spec["cols"] if c["kind"] == "num"]
+    if plain_nums and len(pool) >= 2:
+        # two-sided formulas (-> ModelMatrices with .lhs/.rhs, through ModelSpecs.get_model_matrix)
+        rest = [p for p in pool if p != plain_nums[0]]
+        fixed.insert(1, f"{plain_nums[0]} ~ " + " + ".join(rest[:3]))
+        if len(rest) >= 2:
+            fixed.append(f"{plain_nums[0]} ~ 0 + {rest[0]}:{rest[1]}")
     for f in fixed:
         if f not in seen:
             seen.add(f)
@@ -191,10 +198,23 @@ def _formulas_for_frame(spec, seed, frame_index, count):
 
 
 def _canon(mm, output):
-    """(names, float matrix, problem) of a ModelMatrix; problem = label / container-type complaint."""
+    """(names, float matrix, problem) of a ModelMatrix; problem = label / container-type complaint.
+    A two-sided result (.lhs/.rhs) is canonicalised part by part: names carry the part shapes and the
+    numbers are concatenated into one column."""
     import pandas
     import scipy.sparse
 
+    from formulaic.model_matrix import ModelMatrices
+
+    if isinstance(mm, ModelMatrices):
+        parts = [("lhs", *_canon(mm.lhs, output)), ("rhs", *_canon(mm.rhs, output))]
+        names, flat, problem = (), [], None
+        for tag, n, X, pr in parts:
+            names += (tag, *n, f"shape{X.shape}" if X.ndim == 2 and X.shape[1] else "shape(*, 0)")  # empty: rows not judged
+            flat.append(X.reshape(-1))
+            problem = problem or (pr and f"{pr} [{tag}]")
+        dtype = object if any(f.dtype == object for f in flat) else float
+        return names, numpy.concatenate([f.astype(dtype) for f in flat]).reshape(-1, 1), problem
     names = tuple(mm.model_spec.column_names)
     raw = mm.toarray() if hasattr(mm, "toarray") else numpy.asarray(mm)
     problem = None
@@ -243,6 +263,7 @@ GROUP = {
 AGREE_WITNESS = '''\
 import warnings, numpy, pandas, pyarrow, formulaic
 from formulaic import Formula, ModelSpec
+from formulaic.model_matrix import ModelMatrices
 from formulaic.materializers import NarwhalsMaterializer, PandasMaterializer
 warnings.simplefilter("ignore")
 {frame}
@@ -264,6 +285,14 @@ def canon(route, output):
         mm = build(route, output)
     except Exception as e:
         return ("raises", type(e).__name__)
+    if isinstance(mm, ModelMatrices):   # two-sided formula: .lhs and .rhs, compared part by part
+        l, r = canon_one(mm.lhs, output), canon_one(mm.rhs, output)
+        flat = [l[1].reshape(-1), r[1].reshape(-1)]
+        dtype = object if any(f.dtype == object for f in flat) else float
+        shp = lambda X: str(X.shape) if X.shape[1] else "(*, 0)"   # the row count of an empty part is not judged
+        return (("lhs", *l[0], shp(l[1]), "rhs", *r[0], shp(r[1])), numpy.concatenate([f.astype(dtype) for f in flat]))
+    return canon_one(mm, output)
+def canon_one(mm, output):
     raw = mm.toarray() if hasattr(mm, "toarray") else numpy.asarray(mm)
     import scipy.sparse
     want = {{"pandas": pandas.DataFrame, "numpy": numpy.ndarray,
@@ -405,7 +434,7 @@ def _agree_task(args):
                 key = (mf.spec_summary(spec), frame_index, formula, rank, na)
                 ref_key = ("sugar", "numpy")
                 ref = results[ref_key]
-                if ref[0] == "ok" and ref[2].shape[1] > (1 if "Intercept" in ref[1] else 0):
+                if ref[0] == "ok" and any(n not in ("Intercept", "lhs", "rhs") and not str(n).startswith("shape") for n in ref[1]):
                     keys.add(_digest(key))
                 if len(samples) < 2:
                     samples.append({"frame": mf.spec_summary(spec), "formula": formula, "ensure_full_rank": rank, "na_action": na,
